@@ -48,7 +48,10 @@ Definition format_line_ranges (rs : list range) : str :=
 
 (* needs_quoting: the character list comes from the source (Gen.GenSerial) *)
 Definition needs_quoting (p : str) : bool :=
-  existsb (fun q => mem q p) quoting_chars.
+  existsb (fun q => mem q p) quoting_chars
+  || match quoting_literal with Some d => str_eqb p d | None => false end
+  || (quoting_lead_dq && first_is c_dq p)
+  || (quoting_trailing_ws && negb (str_eqb (trim_end p) p)).
 
 Definition path_line (p : str) : str :=
   if needs_quoting p then [c_dq] ++ p ++ [c_dq] else p.
@@ -141,7 +144,15 @@ Fixpoint parse_att (ls : list str) (acc : list fatt) (cur : option fatt)
                     end
                 | None => Err
                 end
-            | None => Err
+            | None =>
+                (* no space after the hash: an entry without line ranges, or a format error *)
+                if reader_entry_without_ranges then
+                  match cur with
+                  | Some f =>
+                      parse_att ls' acc (Some (mkFatt (f_path f) (f_entries f ++ [mkEntry el []])))
+                  | None => Err
+                  end
+                else Err
             end
         | None =>
             let acc' := flush cur acc in
@@ -197,9 +208,16 @@ Definition range_ok (r : range) : bool :=
   | Range a b => (a <=? u32_max) && (b <=? u32_max)
   end.
 
+(* an entry without ranges is written "  <hash> "; the reader trims the line and, when it accepts a
+   line without a separator at all, takes the rest for the hash *)
 Definition entry_ok (e : entry) : bool :=
   negb (mem c_sp (e_hash e)) && negb (mem c_nl (e_hash e))
-  && match e_ranges e with [] => false | _ => true end
+  && match e_ranges e with
+     | [] => reader_entry_without_ranges
+             && match e_hash e with [] => false | _ => true end
+             && str_eqb (trim_end (e_hash e)) (e_hash e)
+     | _ => true
+     end
   && forallb range_ok (e_ranges e).
 
 Definition fatt_ok (f : fatt) : bool :=
@@ -212,6 +230,28 @@ Definition md_ok (m : str) : bool :=
 
 Definition wf_log (l : log) : bool :=
   forallb fatt_ok (atts l) && md_ok (md l).
+
+(* every entry lists at least one line (what git-ai itself produces) *)
+Definition has_ranges (l : log) : bool :=
+  forallb (fun f => forallb (fun e => match e_ranges e with [] => false | _ => true end) (f_entries f))
+          (atts l).
+
+(* the side condition in plain terms, for the repaired writer/reader (all three quoting rules and the
+   lenient entry reader present): only a newline in a path, an empty path, and blanks in a hash are
+   excluded *)
+Definition entry_simple (e : entry) : bool :=
+  negb (mem c_sp (e_hash e)) && negb (mem c_nl (e_hash e))
+  && match e_ranges e with
+     | [] => match e_hash e with [] => false | _ => true end
+             && str_eqb (trim_end (e_hash e)) (e_hash e)
+     | _ => true
+     end
+  && forallb range_ok (e_ranges e).
+Definition path_simple (p : str) : bool :=
+  negb (mem c_nl p) && match p with [] => false | _ => true end.
+Definition wf_simple (l : log) : bool :=
+  forallb (fun f => path_simple (f_path f) && forallb entry_simple (f_entries f)) (atts l)
+  && md_ok (md l).
 
 Definition norm_entry (e : entry) : entry := mkEntry (e_hash e) (sort_ranges (e_ranges e)).
 Definition norm_fatt (f : fatt) : fatt := mkFatt (f_path f) (map norm_entry (f_entries f)).
@@ -230,10 +270,11 @@ Fixpoint sorted_starts (rs : list range) : bool :=
                 end
   end.
 
-(* unindented path line, wrapped in double quotes iff it contains a space or a tab *)
+(* unindented path line; a path containing a space or a tab MUST be wrapped in double quotes
+   (the writer may quote other paths too: the reader unquotes every quoted line) *)
 Definition path_line_ok (l : str) : Prop :=
   exists p, mem c_nl p = false /\ p <> [] /\
-    ((mem c_sp p || mem c_tab p = true /\ l = [c_dq] ++ p ++ [c_dq]) \/
+    (l = [c_dq] ++ p ++ [c_dq] \/
      (mem c_sp p || mem c_tab p = false /\ l = p)).
 
 (* two-space indent, hash, one space, comma-separated singles / ranges sorted by start *)
